@@ -68,13 +68,21 @@ func gpgPublicKeyAttributes(pk *packet.PublicKey) []Attribute {
 	if err == nil {
 		attrs = append(attrs, Attribute{"Size", fmt.Sprintf("%d bits", l)})
 	}
+	// a key's creation date is the one in its own packet; the signature that binds it may have been re-issued since
+	attrs = append(attrs, Attribute{"Created", pk.CreationTime.UTC().Format("2006-01-02")})
 	return attrs
 }
 
+// gpgSignatureAttributes describes an identity by its self-signature: usage, the date of the signature, expiry.
 func gpgSignatureAttributes(s *packet.Signature, keyCreationTime time.Time) []Attribute {
+	b := gpgBindingAttributes(s, keyCreationTime)
+	return []Attribute{b[0], {"Created", s.CreationTime.UTC().Format("2006-01-02")}, b[1]}
+}
+
+// gpgBindingAttributes lists what a binding signature says about the key it binds: usage and expiry.
+func gpgBindingAttributes(s *packet.Signature, keyCreationTime time.Time) []Attribute {
 	attrs := []Attribute{
 		{"Usage", keyFlagsToString(s)},
-		{"Created", s.CreationTime.UTC().Format("2006-01-02")},
 	}
 	// RFC 4880 5.2.3.6: a key expiration time that is absent or zero means the key never expires
 	if l := s.KeyLifetimeSecs; l != nil && *l != 0 {
